@@ -86,7 +86,16 @@ pub fn kind(group: u8, var: u8) -> Option<Kind> {
     let k = match (group, var) {
         (0, 0) => return None,
         (0, _) => Attr,
-        (1, 0) | (2, 0) | (3, 0) | (4, 0) | (10, 0) | (11, 0) | (20, 0) | (21, 0) | (22, 0) | (23, 0) => NoData,
+        (1, 0)
+        | (2, 0)
+        | (3, 0)
+        | (4, 0)
+        | (10, 0)
+        | (11, 0)
+        | (20, 0)
+        | (21, 0)
+        | (22, 0)
+        | (23, 0) => NoData,
         (30, 0) | (31, 0) | (32, 0) | (33, 0) | (34, 0) | (40, 0) | (42, 0) | (102, 0) => NoData,
         (1, 1) => Bit,
         (1, 2) => Fixed(1),
@@ -182,7 +191,9 @@ pub fn all_variations() -> Vec<(u8, u8)> {
     for g in 0..=255u8 {
         for var in 0..=255u8 {
             if kind(g, var).is_some() {
-                if (g == 110 || g == 111 || g == 0) && !matches!(var, 0 | 1 | 2 | 7 | 200 | 254 | 255) {
+                if (g == 110 || g == 111 || g == 0)
+                    && !matches!(var, 0 | 1 | 2 | 7 | 200 | 254 | 255)
+                {
                     continue;
                 }
                 v.push((g, var));
@@ -254,7 +265,11 @@ pub fn is_static_group(g: u8) -> bool {
 
 /// Walk the object headers of a fragment with function code `function`.
 pub fn walk(function: u8, data: &[u8], zero_len_octets_ok: bool) -> Walk {
-    let mut w = Walk { headers: vec![], error: None, defined: true };
+    let mut w = Walk {
+        headers: vec![],
+        error: None,
+        defined: true,
+    };
     let is_read = function == F_READ;
     let mut p = 0usize;
     macro_rules! fail {
@@ -278,19 +293,41 @@ pub fn walk(function: u8, data: &[u8], zero_len_octets_ok: bool) -> Walk {
             Some(k) => k,
             None => fail!(WalkErr::UnknownObject(g, v)),
         };
-        if !matches!(q, Q_RANGE8 | Q_RANGE16 | Q_ALL | Q_COUNT8 | Q_COUNT16 | Q_PREFIX8 | Q_PREFIX16 | Q_FREE16) {
+        if !matches!(
+            q,
+            Q_RANGE8 | Q_RANGE16 | Q_ALL | Q_COUNT8 | Q_COUNT16 | Q_PREFIX8 | Q_PREFIX16 | Q_FREE16
+        ) {
             // other qualifier codes exist in the standard (0x02..0x05, 0x09, 0x27, 0x39 ...)
             // but no DNP3 subset level uses them; a parser may reject them
             fail!(WalkErr::UnknownQualifier(q));
         }
-        let mut h = Header { group: g, var: v, qual: q, start: 0, stop: 0, count: 0, objs: vec![], offset, len: 0 };
+        let mut h = Header {
+            group: g,
+            var: v,
+            qual: q,
+            start: 0,
+            stop: 0,
+            count: 0,
+            objs: vec![],
+            offset,
+            len: 0,
+        };
         match q {
             Q_ALL => {
                 // "all objects": requests only, never data
                 if k == Kind::Free {
                     fail!(WalkErr::BadQualifier(g, v, q));
                 }
-                if !is_read && !matches!(function, F_IMMED_FREEZE..=F_FREEZE_AT_TIME_NR | F_ENABLE_UNSOL | F_DISABLE_UNSOL | F_ASSIGN_CLASS) {
+                if !is_read
+                    && !matches!(
+                        function,
+                        F_IMMED_FREEZE
+                            ..=F_FREEZE_AT_TIME_NR
+                                | F_ENABLE_UNSOL
+                                | F_DISABLE_UNSOL
+                                | F_ASSIGN_CLASS
+                    )
+                {
                     w.defined = false;
                 }
             }
@@ -345,7 +382,10 @@ pub fn walk(function: u8, data: &[u8], zero_len_octets_ok: bool) -> Walk {
                             }
                             for i in 0..count {
                                 let s = p + sz * i as usize;
-                                h.objs.push(Obj { index: Some(start + i), bytes: data[s..s + sz].to_vec() });
+                                h.objs.push(Obj {
+                                    index: Some(start + i),
+                                    bytes: data[s..s + sz].to_vec(),
+                                });
                             }
                             p += need;
                         }
@@ -356,7 +396,10 @@ pub fn walk(function: u8, data: &[u8], zero_len_octets_ok: bool) -> Walk {
                             }
                             for i in 0..count {
                                 let b = data[p + (i / 8) as usize] >> (i % 8) & 1;
-                                h.objs.push(Obj { index: Some(start + i), bytes: vec![b] });
+                                h.objs.push(Obj {
+                                    index: Some(start + i),
+                                    bytes: vec![b],
+                                });
                             }
                             p += need;
                         }
@@ -367,7 +410,10 @@ pub fn walk(function: u8, data: &[u8], zero_len_octets_ok: bool) -> Walk {
                             }
                             for i in 0..count {
                                 let b = data[p + (i / 4) as usize] >> (2 * (i % 4)) & 3;
-                                h.objs.push(Obj { index: Some(start + i), bytes: vec![b] });
+                                h.objs.push(Obj {
+                                    index: Some(start + i),
+                                    bytes: vec![b],
+                                });
                             }
                             p += need;
                         }
@@ -377,7 +423,10 @@ pub fn walk(function: u8, data: &[u8], zero_len_octets_ok: bool) -> Walk {
                                     fail!(WalkErr::ZeroLengthOctets);
                                 }
                                 for i in 0..count {
-                                    h.objs.push(Obj { index: Some(start + i), bytes: vec![] });
+                                    h.objs.push(Obj {
+                                        index: Some(start + i),
+                                        bytes: vec![],
+                                    });
                                 }
                             } else {
                                 let sz = v as usize;
@@ -387,7 +436,10 @@ pub fn walk(function: u8, data: &[u8], zero_len_octets_ok: bool) -> Walk {
                                 }
                                 for i in 0..count {
                                     let s = p + sz * i as usize;
-                                    h.objs.push(Obj { index: Some(start + i), bytes: data[s..s + sz].to_vec() });
+                                    h.objs.push(Obj {
+                                        index: Some(start + i),
+                                        bytes: data[s..s + sz].to_vec(),
+                                    });
                                 }
                                 p += need;
                             }
@@ -405,7 +457,10 @@ pub fn walk(function: u8, data: &[u8], zero_len_octets_ok: bool) -> Walk {
                             if p + 2 + len > data.len() {
                                 fail!(WalkErr::Truncated);
                             }
-                            h.objs.push(Obj { index: Some(start), bytes: data[p..p + 2 + len].to_vec() });
+                            h.objs.push(Obj {
+                                index: Some(start),
+                                bytes: data[p..p + 2 + len].to_vec(),
+                            });
                             p += 2 + len;
                         }
                         Kind::Free => fail!(WalkErr::BadQualifier(g, v, q)),
@@ -442,7 +497,10 @@ pub fn walk(function: u8, data: &[u8], zero_len_octets_ok: bool) -> Walk {
                         }
                         for i in 0..count {
                             let s = p + sz * i as usize;
-                            h.objs.push(Obj { index: None, bytes: data[s..s + sz].to_vec() });
+                            h.objs.push(Obj {
+                                index: None,
+                                bytes: data[s..s + sz].to_vec(),
+                            });
                         }
                         p += need;
                     }
@@ -507,8 +565,15 @@ pub fn walk(function: u8, data: &[u8], zero_len_octets_ok: bool) -> Walk {
                 }
                 for i in 0..count as usize {
                     let s = p + (isz + sz) * i;
-                    let idx = if isz == 1 { data[s] as u32 } else { u16::from_le_bytes([data[s], data[s + 1]]) as u32 };
-                    h.objs.push(Obj { index: Some(idx), bytes: data[s + isz..s + isz + sz].to_vec() });
+                    let idx = if isz == 1 {
+                        data[s] as u32
+                    } else {
+                        u16::from_le_bytes([data[s], data[s + 1]]) as u32
+                    };
+                    h.objs.push(Obj {
+                        index: Some(idx),
+                        bytes: data[s + isz..s + isz + sz].to_vec(),
+                    });
                 }
                 p += need;
             }
@@ -535,7 +600,10 @@ pub fn walk(function: u8, data: &[u8], zero_len_octets_ok: bool) -> Walk {
                 if p + len > data.len() {
                     fail!(WalkErr::Truncated);
                 }
-                h.objs.push(Obj { index: None, bytes: data[p..p + len].to_vec() });
+                h.objs.push(Obj {
+                    index: None,
+                    bytes: data[p..p + len].to_vec(),
+                });
                 // inner structure of file objects is validated by the object itself
                 w.defined = false;
                 p += len;
@@ -587,9 +655,19 @@ impl Fragment {
             if b.len() < 4 {
                 return None;
             }
-            Some(Fragment { ctrl: b[0], func, iin: Some((b[2], b[3])), objects: b[4..].to_vec() })
+            Some(Fragment {
+                ctrl: b[0],
+                func,
+                iin: Some((b[2], b[3])),
+                objects: b[4..].to_vec(),
+            })
         } else {
-            Some(Fragment { ctrl: b[0], func, iin: None, objects: b[2..].to_vec() })
+            Some(Fragment {
+                ctrl: b[0],
+                func,
+                iin: None,
+                objects: b[2..].to_vec(),
+            })
         }
     }
     pub fn encode(&self) -> Vec<u8> {
@@ -611,16 +689,36 @@ pub struct B {
 
 impl B {
     pub fn request(func: u8, seq: u8) -> B {
-        B { bytes: vec![FIR | FIN | (seq & 0x0F), func] }
+        B {
+            bytes: vec![FIR | FIN | (seq & 0x0F), func],
+        }
     }
     pub fn with_ctrl(ctrl: u8, func: u8) -> B {
-        B { bytes: vec![ctrl, func] }
+        B {
+            bytes: vec![ctrl, func],
+        }
     }
     pub fn confirm(seq: u8, uns: bool) -> B {
-        B { bytes: vec![FIR | FIN | if uns { UNS } else { 0 } | (seq & 0x0F), F_CONFIRM] }
+        B {
+            bytes: vec![
+                FIR | FIN | if uns { UNS } else { 0 } | (seq & 0x0F),
+                F_CONFIRM,
+            ],
+        }
     }
     pub fn response(ctrl: u8, unsolicited: bool, iin1: u8, iin2: u8) -> B {
-        B { bytes: vec![ctrl, if unsolicited { F_UNSOL_RESPONSE } else { F_RESPONSE }, iin1, iin2] }
+        B {
+            bytes: vec![
+                ctrl,
+                if unsolicited {
+                    F_UNSOL_RESPONSE
+                } else {
+                    F_RESPONSE
+                },
+                iin1,
+                iin2,
+            ],
+        }
     }
     pub fn all(mut self, g: u8, v: u8) -> B {
         self.bytes.extend_from_slice(&[g, v, Q_ALL]);
@@ -651,7 +749,8 @@ impl B {
     }
     /// items: (index, object bytes)
     pub fn prefixed8(mut self, g: u8, v: u8, items: &[(u8, Vec<u8>)]) -> B {
-        self.bytes.extend_from_slice(&[g, v, Q_PREFIX8, items.len() as u8]);
+        self.bytes
+            .extend_from_slice(&[g, v, Q_PREFIX8, items.len() as u8]);
         for (i, d) in items {
             self.bytes.push(*i);
             self.bytes.extend_from_slice(d);
@@ -660,7 +759,8 @@ impl B {
     }
     pub fn prefixed16(mut self, g: u8, v: u8, items: &[(u16, Vec<u8>)]) -> B {
         self.bytes.extend_from_slice(&[g, v, Q_PREFIX16]);
-        self.bytes.extend_from_slice(&(items.len() as u16).to_le_bytes());
+        self.bytes
+            .extend_from_slice(&(items.len() as u16).to_le_bytes());
         for (i, d) in items {
             self.bytes.extend_from_slice(&i.to_le_bytes());
             self.bytes.extend_from_slice(d);
@@ -799,14 +899,29 @@ fn lef64(b: &[u8]) -> f64 {
 /// Decode one measurement object. Returns None for objects that are not measurements.
 pub fn decode_meas(g: u8, v: u8, index: u32, b: &[u8]) -> Option<Meas> {
     use PType::*;
-    let mut m = Meas { ptype: Binary, is_event: is_event_group(g), group: g, var: v, index, val: Val::Bool(false), flags: None, time: None, rel_time: None, status: None };
+    let mut m = Meas {
+        ptype: Binary,
+        is_event: is_event_group(g),
+        group: g,
+        var: v,
+        index,
+        val: Val::Bool(false),
+        flags: None,
+        time: None,
+        rel_time: None,
+        status: None,
+    };
     match (g, v) {
         (1, 1) | (10, 1) => {
             m.ptype = if g == 1 { Binary } else { BinaryOutputStatus };
             m.val = Val::Bool(b[0] != 0);
         }
         (1, 2) | (10, 2) | (2, 1) | (11, 1) => {
-            m.ptype = if g == 1 || g == 2 { Binary } else { BinaryOutputStatus };
+            m.ptype = if g == 1 || g == 2 {
+                Binary
+            } else {
+                BinaryOutputStatus
+            };
             m.val = Val::Bool(b[0] & 0x80 != 0);
             m.flags = Some(b[0] & 0x7F);
         }
@@ -852,12 +967,20 @@ pub fn decode_meas(g: u8, v: u8, index: u32, b: &[u8]) -> Option<Meas> {
             }
         }
         (20, 1) | (21, 1) | (22, 1) | (23, 1) => {
-            m.ptype = if g == 20 || g == 22 { Counter } else { FrozenCounter };
+            m.ptype = if g == 20 || g == 22 {
+                Counter
+            } else {
+                FrozenCounter
+            };
             m.flags = Some(b[0]);
             m.val = Val::U32(le32(&b[1..]));
         }
         (20, 2) | (21, 2) | (22, 2) | (23, 2) => {
-            m.ptype = if g == 20 || g == 22 { Counter } else { FrozenCounter };
+            m.ptype = if g == 20 || g == 22 {
+                Counter
+            } else {
+                FrozenCounter
+            };
             m.flags = Some(b[0]);
             m.val = Val::U16(le16(&b[1..]));
         }
@@ -985,7 +1108,9 @@ pub fn decode_meas(g: u8, v: u8, index: u32, b: &[u8]) -> Option<Meas> {
 /// Decode every measurement of a response's object data, resolving g2v3/g4v3
 /// relative times against the preceding g51 common time of occurrence.
 /// Returns (measurements, common-time headers seen as (synchronized, time)).
-pub fn decode_response_measurements(objects: &[u8]) -> Result<(Vec<Meas>, Vec<(bool, u64)>), WalkErr> {
+pub fn decode_response_measurements(
+    objects: &[u8],
+) -> Result<(Vec<Meas>, Vec<(bool, u64)>), WalkErr> {
     let w = walk(F_RESPONSE, objects, true);
     if let Some(e) = w.error {
         return Err(e);
@@ -1015,8 +1140,17 @@ pub fn decode_response_measurements(objects: &[u8]) -> Result<(Vec<Meas>, Vec<(b
 
 pub fn self_test() -> Result<(), String> {
     // integrity poll
-    let rq = B::request(F_READ, 1).all(60, 2).all(60, 3).all(60, 4).all(60, 1).done();
-    if rq != [0xC1, 0x01, 0x3C, 0x02, 0x06, 0x3C, 0x03, 0x06, 0x3C, 0x04, 0x06, 0x3C, 0x01, 0x06] {
+    let rq = B::request(F_READ, 1)
+        .all(60, 2)
+        .all(60, 3)
+        .all(60, 4)
+        .all(60, 1)
+        .done();
+    if rq
+        != [
+            0xC1, 0x01, 0x3C, 0x02, 0x06, 0x3C, 0x03, 0x06, 0x3C, 0x04, 0x06, 0x3C, 0x01, 0x06,
+        ]
+    {
         return Err("builder self test".into());
     }
     let w = walk(F_READ, &rq[2..], false);
@@ -1024,9 +1158,17 @@ pub fn self_test() -> Result<(), String> {
         return Err(format!("walker self test: {w:?}"));
     }
     // response with g1v2 range 0..2 and g30v1 range 5..5
-    let rs = B::response(FIR | FIN, false, 0, 0).range8(1, 2, 0, 2, &[0x81, 0x01, 0x80]).range16(30, 1, 5, 5, &[0x01, 0x2A, 0, 0, 0]).done();
+    let rs = B::response(FIR | FIN, false, 0, 0)
+        .range8(1, 2, 0, 2, &[0x81, 0x01, 0x80])
+        .range16(30, 1, 5, 5, &[0x01, 0x2A, 0, 0, 0])
+        .done();
     let (m, _) = decode_response_measurements(&rs[4..]).map_err(|e| format!("{e:?}"))?;
-    if m.len() != 4 || m[0].val != Val::Bool(true) || m[1].val != Val::Bool(false) || m[3].val != Val::I32(42) || m[3].index != 5 {
+    if m.len() != 4
+        || m[0].val != Val::Bool(true)
+        || m[1].val != Val::Bool(false)
+        || m[3].val != Val::I32(42)
+        || m[3].index != 5
+    {
         return Err(format!("decoder self test {m:?}"));
     }
     // truncation
